@@ -18,11 +18,15 @@ fn run_geo(c: &MultiCase) -> CaseResult {
     let (mut overflow, mut fits_again, mut wraps, mut wide_wraps) = (false, false, false, false);
     let mut was_over = false;
     let mut max_rows_seen = it.rows;
+    let mut skipped_draws = false;
     for (i, op) in c.ops.iter().enumerate() {
-        clock::advance(Duration::from_millis(c.step_ms.max(2) as u64));
+        clock::advance(Duration::from_millis(if c.hz.is_some() { c.step_ms } else { c.step_ms.max(2) } as u64));
         let out = catch(|| it.step(op)).map_err(|p| Fail::new("panic", format!("op #{i} {op:?} panicked: {p} ({}x{} terminal, ops {:?})", it.rows, it.cols, &c.ops[..=i])))??;
         if out.skipped {
             continue;
+        }
+        if c.hz.is_some() && out.frames.is_empty() && matches!(op, MOp::Tick(_) | MOp::Inc(..) | MOp::SetMessage(..)) && out.note != "inc_throttled" {
+            skipped_draws = true;
         }
         if let Some(Err(e)) = &out.io_result {
             return Err(Fail::new("io", format!("op #{i} {op:?} returned an error: {e}")));
@@ -61,6 +65,8 @@ fn run_geo(c: &MultiCase) -> CaseResult {
     v.label_if(it.rows == 1 || it.cols == 1, "one_row_or_one_column");
     v.label_if(it.cols > 256, "terminal_wider_than_256_columns");
     v.label_if(!it.model.log.is_empty(), "log_lines");
+    v.label_if(skipped_draws, "draws_skipped_by_the_limiter");
+    v.label_if(c.ops.iter().any(|o| matches!(o, MOp::BarPrintln(_, t) if t.is_empty())), "empty_line_printed_through_a_member");
     Ok(v)
 }
 
@@ -97,8 +103,10 @@ fn geo_strategy(tier: Tier) -> BoxedStrategy<MultiCase> {
     let n = tier.pick(30, 50);
     let (max_rows, max_cols) = tier.pick((12u8, 40u16), (40, 200));
     // (one terminal in twenty is wider than 256 columns)
-    (prop_oneof![1 => 1u8..3, 4 => 3u8..=max_rows], prop_oneof![4 => 1u16..4, 15 => 4u16..=max_cols, 1 => 257u16..400])
-        .prop_flat_map(move |(rows, cols)| {
+    // (one history in six runs on a rate-limited target whose burst is used up first, on a frozen or slow clock)
+    let limiter = proptest::option::weighted(0.17, (prop_oneof![Just(1u8), Just(20), Just(255)], prop_oneof![3 => Just(0u32), 1 => Just(1u32), 1 => Just(200u32)]));
+    (prop_oneof![1 => 1u8..3, 4 => 3u8..=max_rows], prop_oneof![4 => 1u16..4, 15 => 4u16..=max_cols, 1 => 257u16..400], limiter)
+        .prop_flat_map(move |(rows, cols, limiter)| {
             let c = cols as usize;
             let s = || any::<u16>();
             // message lengths around multiples of the width: the line is "B<tag>:<pos> <msg>"
@@ -109,7 +117,7 @@ fn geo_strategy(tier: Tier) -> BoxedStrategy<MultiCase> {
             let msg2 = msg.clone();
             let spec = (proptest::option::weighted(0.8, 1u64..50), prop_oneof![3 => Just(2u8), 2 => Just(0u8), 1 => 1u8..5], msg.clone())
                 .prop_map(|(len, on_finish, msg)| BarSpec { two_lines: false, len, on_finish, msg });
-            let log = prop_oneof![3 => "[a-z]{1,4}", 1 => (0usize..3, -1i32..=1).prop_map(move |(k, d)| "l".repeat(((k * c) as i32 + d).max(0) as usize)), 1 => (c / 2 + 1..c + 2).prop_map(move |n| if c % 2 == 0 { "\u{6357}".repeat(n) } else { "l".repeat(n) }),
+            let log = prop_oneof![3 => "[a-z]{1,4}", 1 => Just(String::new()), 1 => (0usize..3, -1i32..=1).prop_map(move |(k, d)| "l".repeat(((k * c) as i32 + d).max(0) as usize)), 1 => (c / 2 + 1..c + 2).prop_map(move |n| if c % 2 == 0 { "\u{6357}".repeat(n) } else { "l".repeat(n) }),
                 // several lines in one draw: a line that exactly fills k rows, a blank line, another line
                 1 => (1usize..3, "[a-z]{0,3}").prop_map(move |(k, z)| format!("{}\n\n{z}", "f".repeat(k * c)))];
             let op = prop_oneof![
@@ -121,13 +129,22 @@ fn geo_strategy(tier: Tier) -> BoxedStrategy<MultiCase> {
                 2 => s().prop_map(MOp::Finish),
                 1 => s().prop_map(MOp::FinishAndClear),
                 3 => s().prop_map(MOp::Drop),
-                3 => log.prop_map(MOp::MpPrintln),
+                3 => log.clone().prop_map(MOp::MpPrintln),
+                1 => (s(), log).prop_map(|(i, t)| MOp::BarPrintln(i, t)),
                 1 => Just(MOp::MpClear),
                 1 => (1u8..=max_rows).prop_map(MOp::Resize),
             ];
-            (Just(rows), Just(cols), proptest::collection::vec(op, 0..n))
+            (Just(rows), Just(cols), Just(limiter), proptest::collection::vec(op, 0..n))
         })
-        .prop_map(|(rows, cols, ops)| MultiCase { rows, cols, hz: None, step_ms: 2, ops, final_drops: vec![] })
+        .prop_map(|(rows, cols, limiter, ops)| match limiter {
+            None => MultiCase { rows, cols, hz: None, step_ms: 2, ops, final_drops: vec![] },
+            Some((hz, step_ms)) => {
+                let mut all = vec![MOp::Add(BarSpec { two_lines: false, len: Some(5), on_finish: 0, msg: String::new() })];
+                all.extend(std::iter::repeat(MOp::Tick(0)).take(22));
+                all.extend(ops);
+                MultiCase { rows, cols, hz: Some(hz), step_ms, ops: all, final_drops: vec![] }
+            }
+        })
         .boxed()
 }
 
@@ -183,12 +200,12 @@ pub fn property() -> Property {
         ],
         parts: vec![Box::new(Gen::<MultiCase> {
             name: "overflow",
-            rule: "MultiProgress on terminals from 1x1 to 12x40 (thorough 40x200) with up to 8 single-line bars whose width sits at k*W-2..k*W+2 (1-4 rows each), ops add/remove/tick/inc/set_message/finish/finish_and_clear/drop/println/clear so that the frame crosses the terminal height in both directions; at every flush the screen must equal log ++ retained blocks ++ the longest fitting prefix of the bar lines, and move_cursor_up never exceeds rows-1; non-trivial = a line wraps and the frame exceeded the height at least once",
+            rule: "MultiProgress on terminals from 1x1 to 12x40 (thorough 40x200) with up to 8 single-line bars whose width sits at k*W-2..k*W+2 (1-4 rows each), ops add/remove/tick/inc/set_message/finish/finish_and_clear/drop/println (also through a member bar, also the empty line)/clear/resize, one history in six on a rate-limited target (1/20/255 Hz, burst used up, clock step 0/1/200 ms) so that the frame crosses the terminal height in both directions; at every flush the screen must equal log ++ retained blocks ++ the longest fitting prefix of the bar lines, and move_cursor_up never exceeds rows-1; non-trivial = a line wraps and the frame exceeded the height at least once",
             strategy: geo_strategy,
             cases: |t| t.pick(16_000, 800_000),
             run: run_geo,
             signature: crate::props::c02::signature,
-            essential: &["line_wraps", "frame_taller_than_terminal", "fits_again_after_overflow", "one_row_or_one_column", "log_lines", "double_width_line_wraps_with_fewer_chars_than_columns", "terminal_height_changed", "terminal_wider_than_256_columns"],
+            essential: &["line_wraps", "frame_taller_than_terminal", "fits_again_after_overflow", "one_row_or_one_column", "log_lines", "double_width_line_wraps_with_fewer_chars_than_columns", "terminal_height_changed", "terminal_wider_than_256_columns", "draws_skipped_by_the_limiter", "empty_line_printed_through_a_member"],
             workers: w,
             decode: Some(|u| decode_multi(u, 2)),
         }),
